@@ -2,4 +2,5 @@ let () =
   match Sys.argv with
   | [| _; "fmt" |] -> Run_fmt.run ()
   | [| _; "buf" |] -> Run_buf.run ()
+  | [| _; "cmp" |] -> Run_cmp.run ()
   | _ -> prerr_endline "usage: modelrun <engine>"; exit 2
